@@ -44,11 +44,12 @@ MkTxs(h, ks, i, e, c, n) ==
 MkBlock(h, ks) == [h |-> h, bh |-> <<"b", h>>, baseFee |-> 1, txs |-> MkTxs(h, ks, 1, 0, 0, 0)]
 
 KindSeqs == UNION {[1..n -> Kinds] : n \in 0..MaxTxs}
-McChains == UNION {{[h \in 1..n |-> MkBlock(h, f[h])] : f \in [1..n -> KindSeqs]} : n \in 1..MaxBlocks}
+McMaxLen == MaxBlocks
+McBlocks(h) == {MkBlock(h, ks) : ks \in KindSeqs}
 
 (* witnesses (vacuity guards): each must be violated, i.e. the situation is reachable *)
-W_CrashWithOpenBatch == ~(~up /\ crashes > 0 /\ kv # EmptyKv /\ kv # Index(chain, start, Len(chain)))
-W_CaughtUpAfterCrash == ~(CaughtUp /\ crashes = MaxCrashes /\ tip = Len(chain) /\ DOMAIN kv.byHash # {})
+W_CrashWithOpenBatch == ~(~up /\ crashes > 0 /\ kv # EmptyKv /\ Len(chain) = MaxBlocks /\ kv # Index(chain, start, Len(chain)))
+W_CaughtUpAfterCrash == ~(CaughtUp /\ crashes = MaxCrashes /\ Len(chain) = MaxBlocks /\ DOMAIN kv.byHash # {})
 W_FailedIndexed == ~(\E x \in DOMAIN kv.byHash : kv.byHash[x].failed /\ kv.byHash[x].ethIdx > 0)
 W_Reindexed == ~(cur # 0 /\ cur < next /\ pos > 1)
 W_RefusedBeforeAdmitted == ~(\E x \in DOMAIN kv.byHash : kv.byHash[x].txIdx > kv.byHash[x].ethIdx)
